@@ -32,18 +32,6 @@ func collectGroups(body *[]*chain.Stmt, out *[]groupRef) {
 	}
 }
 
-// clone copies the statement tree (scripts are shared, they are immutable).
-func clone(ss []*chain.Stmt) []*chain.Stmt {
-	out := make([]*chain.Stmt, len(ss))
-	for i, s := range ss {
-		c := *s
-		c.Route = nil
-		c.Body = clone(s.Body)
-		out[i] = &c
-	}
-	return out
-}
-
 func routeStmts(ss []*chain.Stmt, out *[]*chain.Stmt) {
 	for _, s := range ss {
 		if s.Kind == "route" {
@@ -149,12 +137,13 @@ func prop(t *rapid.T) {
 	var groups []groupRef
 	collectGroups(&prog.Body, &groups)
 	if len(groups) > 0 {
-		prog2 := &chain.Program{Opts: prog.Opts, Body: clone(prog.Body)}
+		prog2 := &chain.Program{Opts: prog.Opts, Body: chain.Clone(prog.Body)}
 		var groups2 []groupRef
 		collectGroups(&prog2.Body, &groups2)
 		g := groups2[rapid.IntRange(0, len(groups2)-1).Draw(t, "deleteGroup")]
 		deleted := (*g.parent)[g.idx]
 		*g.parent = append(append([]*chain.Stmt{}, (*g.parent)[:g.idx]...), (*g.parent)[g.idx+1:]...)
+		chain.Unlink(prog2.Body)
 		w2 := chain.NewWorld()
 		pm2 := prog2.Model()
 		r2 := prog2.Apply(w2)
